@@ -95,6 +95,8 @@ def xml_member(gen, name, t, v, ns, pref):
         # items are named after the member type; the name Spyne chose is read off the array class
         (iname, _icls), = gen.cls(t)._type_info.items()
         ins = it.get('ns', gen.tns) if it['k'] == 'obj' else ns
+        if it['k'] == 'prim' and it['p'] == 'Uuid':
+            ins = 'http://spyne.io/schema'          # a leaf type with a namespace of its own
         inner = ''.join(xml_member(gen, iname, dict(it, max=1), x, ins, pref) for x in (v.values() if isinstance(v, Sparse) else v))
         return '<%s>%s</%s>' % (q, inner, q)
     raise ValueError(t)
@@ -127,7 +129,7 @@ def owner_ns(t, n, gen):
     return t.get('ns', gen.tns)
 
 
-def xml_body(gen, method, args, method_ns=None):
+def xml_body(gen, method, args, method_ns=None, style='wrapped'):
     nsmap = {}
 
     def pref(ns):
@@ -135,6 +137,12 @@ def xml_body(gen, method, args, method_ns=None):
             nsmap[ns] = 'tns' if ns == gen.tns else 'n%d' % len(nsmap)
         return nsmap[ns]
     pref(gen.tns)
+    if style == 'bare':
+        # the single argument IS the message: its content sits directly under the method element
+        (n, t, v), = args
+        one = xml_member(gen, method, dict(t, max=1), v if v is not None else NIL, gen.tns, pref)
+        decl = ''.join(' xmlns:%s="%s"' % (p, ns) for ns, p in nsmap.items()) + ' xmlns:xsi="%s"' % XSI
+        return one.replace('<tns:%s' % method, '<tns:%s%s' % (method, decl), 1)
     inner = ''.join(xml_member(gen, n, t, v, gen.tns, pref) for n, t, v in args)
     decl = ''.join(' xmlns:%s="%s"' % (p, ns) for ns, p in nsmap.items()) + ' xmlns:xsi="%s"' % XSI
     return '<tns:%s%s>%s</tns:%s>' % (method, decl, inner, method)
@@ -219,14 +227,14 @@ def flat_query(args):
 
 
 # --------------------------------------------------------------------- request
-def request(gen, fam, method, args):
+def request(gen, fam, method, args, style='wrapped'):
     """-> (environ additions, body bytes)"""
     env = {'REQUEST_METHOD': 'POST', 'PATH_INFO': '/', 'QUERY_STRING': ''}
     if fam == 'xml':
-        body = xml_body(gen, method, args).encode('utf8'); env['CONTENT_TYPE'] = 'text/xml; charset=utf-8'
+        body = xml_body(gen, method, args, style=style).encode('utf8'); env['CONTENT_TYPE'] = 'text/xml; charset=utf-8'
     elif fam in ('soap11', 'soap12'):
         e = E11 if fam == 'soap11' else E12
-        body = ('<e:Envelope xmlns:e="%s"><e:Body>%s</e:Body></e:Envelope>' % (e, xml_body(gen, method, args))).encode('utf8')
+        body = ('<e:Envelope xmlns:e="%s"><e:Body>%s</e:Body></e:Envelope>' % (e, xml_body(gen, method, args, style=style))).encode('utf8')
         env['CONTENT_TYPE'] = 'text/xml; charset=utf-8' if fam == 'soap11' else 'application/soap+xml; charset=utf-8'
     elif fam == 'json':
         body = json.dumps(dict_body(method, args, fam)).encode('utf8'); env['CONTENT_TYPE'] = 'application/json'
